@@ -80,6 +80,8 @@ def derive(user):
     padding = max(o["padding"], 1.0)
     padded = int(math.ceil(n * padding))
     spaced = int(math.ceil(n * nbuckets * spacing_ps)) if n * nbuckets * spacing_ps < 4e18 else None
+    if spaced is not None and spacing_bins is not None:
+        spaced = max(spaced, (nbuckets - 1) * spacing_bins + n)     # the last bucket's grid must fit behind the rounded spacing
     if o["RoundPadding"]:
         padded = upper_pow2(padded)
         if spaced is not None:
